@@ -58,6 +58,10 @@ checks = {
  "C14": dict(cat="model_checking", ref="§8 C14", technique="symbolic execution of the whole generation through TemplateGenFromString/TsGenFromString with the iteration order of one solver-chosen map-range instance symbolic (schedule = map order); differences confirmed by repeated native runs",
    text="Go's randomised map order is made a solver variable: the whole generation runs in the engine once in insertion order and once with one dynamic map-iteration instance (chosen by the solver among all instances of the run) in an arbitrary order; the data handed to the template / written to the file must be identical. Covers every map-range instance of the run, one deviation at a time.",
    note="Trusted base: gosym, event-recorder models of os.Create/WriteString/Close and template.Execute, native regexp on concrete strings. Simultaneous deviations at two instances and non-map sources of nondeterminism are outside the claim."),
+
+ "C19": dict(cat="model_checking", ref="§8 C19", technique="symbolic execution of TemplateGenFromString/TsGenFromString with a symbolic fault flag at the entry of every input-dependent step and event-recorder models of the file operations; native CLI runs with a pre-existing file as confirmation",
+   text="Fault points become solver variables: each step of the two generation entry points that can fail because of the input may raise a panic under a symbolic flag; the recorded file events must show no create/write before a failure and a complete create-write-close sequence on success (TS: epilogue written last). Real input-caused failures are additionally run in the engine and through the natively built CLI with byte comparison of a pre-existing file.",
+   note="Trusted base: gosym, the event-recorder models of os.Create/WriteString/Close/template.Execute, the list of fault sites in tool/checks/c19.go (a renamed step is reported as inconclusive). File-system failures are outside the claim."),
 }
 
 na = {
